@@ -43,7 +43,7 @@ def run(ctx, prop):
     wd = ctx.workdir("th")
     t16 = os.path.join(wd, "c16.ndjson")
     t17 = os.path.join(wd, "c17.ndjson")
-    env = {"VERIF_LP": lp["out"], "VERIF_LOCAL": "48" if quick else "400"}
+    env = {"VERIF_LP": lp["out"], "VERIF_LOCAL": "48" if quick else "400", "VERIF_NOPACK": "60" if quick else "100000"}
     s = vlib.harness(ctx, "th_replay", [mc["out"], t16, t17], env=env, timeout=7200)
     os.remove(mc["out"])
     if s["evaluations"] < 1000 or s["extra"].get("local_buildpack_scenarios", 0) < 100:
